@@ -15,12 +15,14 @@ from __future__ import annotations
 
 import functools
 import importlib
+import os
 import pickle
+import sys
 import time
 
 from mc import bfs
 from mc.evidence import Run, digest
-from mc.harness import pmap, rotate
+from mc.harness import pool, rotate
 
 PID = "C12"
 
@@ -56,30 +58,37 @@ def worlds(tier):
     # even cluster size: 4 nodes, a reaches b,c and b reaches a,d
     W.append(("paxos-2prop-n4-two-cuts", "paxos",
               dict(n=4, proposers=(0, 1), max_retries=0, max_ballot=2, mute=MUTE_D,
-                   cut=(("a", "d"), ("d", "a"), ("b", "c"), ("c", "b")), max_moves=11 if q else 15), 600_000))
+                   cut=(("a", "d"), ("d", "a"), ("b", "c"), ("c", "b")), max_moves=11 if q else 14), 600_000))
     # two competing proposers + one retry after a nack, Decided broadcasts never delivered
     for nm, cut in (("ac", AC), ("bc", BC)):
         W.append((f"paxos-2prop-retry1-cut-{nm}", "paxos",
                   dict(n=3, proposers=(0, 1), max_retries=1, max_ballot=3, mute=MUTE_D, cut=cut,
-                       max_moves=14 if q else 20), 600_000))
+                       max_moves=14 if q else 16), 600_000))
     # two competing proposers, all links, bounded number of moves
     W.append(("paxos-2prop-all-links", "paxos",
-              dict(n=3, proposers=(0, 1), max_retries=0, max_ballot=2, mute=MUTE_D, max_moves=12 if q else 16),
+              dict(n=3, proposers=(0, 1), max_retries=0, max_ballot=2, mute=MUTE_D, max_moves=12 if q else 14),
               800_000))
     if not q:
         W.append(("paxos-2prop-all-links-learners", "paxos",
                   dict(n=3, proposers=(0, 1), max_retries=0, max_ballot=2, max_moves=13), 600_000))
         W.append(("paxos-2prop-retry1-all-links", "paxos",
-                  dict(n=3, proposers=(0, 1), max_retries=1, max_ballot=3, mute=MUTE_D, max_moves=14), 600_000))
+                  dict(n=3, proposers=(0, 1), max_retries=1, max_ballot=3, mute=MUTE_D, max_moves=13), 600_000))
         W.append(("paxos-2prop-retry2-cut-ac", "paxos",
-                  dict(n=3, proposers=(0, 1), max_retries=2, max_ballot=4, mute=MUTE_D, cut=AC, max_moves=17), 600_000))
+                  dict(n=3, proposers=(0, 1), max_retries=2, max_ballot=4, mute=MUTE_D, cut=AC, max_moves=16), 600_000))
         W.append(("paxos-2prop-retry2-cut-bc", "paxos",
-                  dict(n=3, proposers=(0, 1), max_retries=2, max_ballot=4, mute=MUTE_D, cut=BC, max_moves=16), 600_000))
+                  dict(n=3, proposers=(0, 1), max_retries=2, max_ballot=4, mute=MUTE_D, cut=BC, max_moves=15), 600_000))
         W.append(("paxos-3prop-all-links", "paxos",
-                  dict(n=3, proposers=(0, 1, 2), max_retries=0, max_ballot=3, mute=MUTE_D, max_moves=9), 600_000))
+                  dict(n=3, proposers=(0, 1, 2), max_retries=0, max_ballot=3, mute=MUTE_D, max_moves=8), 600_000))
         W.append(("paxos-double-proposal-one-node", "paxos",
                   dict(n=3, proposers=(0,), double=True, max_retries=1, max_ballot=4, max_moves=12), 600_000))
         W.append(("paxos-live-1proposer-n4", "paxos", dict(n=4, proposers=(1,), max_retries=0, live=True), 600_000))
+        # 5 nodes: a reaches c,d; b reaches d,e; every other link is cut (quorums {a,c,d} and {b,d,e} meet in d)
+        keep = {("a", "c"), ("a", "d"), ("b", "d"), ("b", "e")}
+        cut5 = tuple((x, y) for x in "abcde" for y in "abcde"
+                     if x != y and (x, y) not in keep and (y, x) not in keep)
+        W.append(("paxos-2prop-n5-sparse-links", "paxos",
+                  dict(n=5, proposers=(0, 1), max_retries=0, max_ballot=2, mute=MUTE_D, cut=cut5, max_moves=14),
+                  600_000))
     # ---- Multi-Paxos / Flexible Paxos ------------------------------------------------------------
     flexq = [(3, 2, 2)] if q else [(3, 2, 2), (3, 1, 3), (3, 3, 1), (4, 3, 2), (4, 2, 3)]
     kinds = [("multi", 3, None, None)] + [("flex", n, q1, q2) for n, q1, q2 in flexq]
@@ -102,6 +111,25 @@ def worlds(tier):
                        max_moves=10 if q else (11 if (kind == "multi" or (n, q1, q2) == (3, 2, 2)) else
                                                (10 if n == 3 else 9))), 600_000))
     if not q:
+        # liveness for every other intersecting (phase-1, phase-2) quorum pair of 3 and 4 nodes, and 5-node clusters
+        done = {(n, q1, q2) for n, q1, q2 in flexq}
+        for n in (3, 4):
+            for q1 in range(1, n + 1):
+                for q2 in range(1, n + 1):
+                    if q1 + q2 > n and (n, q1, q2) not in done:
+                        base = dict(kind="flex", n=n, q1=q1, q2=q2)
+                        W.append((f"flex-n{n}-q{q1}{q2}-live-presubmit", "log",
+                                  dict(base, presubmit=((0, "c1"),), starters=(0,), max_hb=3, bounded=True, live=True),
+                                  100_000))
+                        W.append((f"flex-n{n}-q{q1}{q2}-live-submit-to-leader", "log",
+                                  dict(base, presubmit=(), starters=(0,), late_cmds=("c1",), max_hb=3, bounded=True,
+                                       live=True), 100_000))
+        W.append(("multi-n5-live-presubmit", "log",
+                  dict(kind="multi", n=5, presubmit=((1, "c1"),), starters=(1,), max_hb=3, bounded=True, live=True),
+                  200_000))
+        W.append(("flex-n5-q24-live-presubmit", "log",
+                  dict(kind="flex", n=5, q1=2, q2=4, presubmit=((1, "c1"),), starters=(1,), max_hb=3, bounded=True,
+                       live=True), 200_000))
         W.append(("multi-forward-event", "log",
                   dict(kind="multi", presubmit=(), starters=(0,), late_cmds=("c1",), forward=True, max_hb=3,
                        bounded=True, live=True), 100_000))
@@ -286,13 +314,23 @@ def main(tier, seed, only=None):
     for name, cls_key, kw, max_states in worlds(tier):
         if only and name not in only and cls_key not in only:
             continue
-        jobs.append((name, cls_key, kw, max_states, float(__import__("os").environ.get("C12_MAXT", "90" if tier == "quick" else "700"))))
+        jobs.append((name, cls_key, kw, max_states, float(os.environ.get("C12_MAXT", "600" if tier == "quick" else "3000"))))
     # biggest first so the pool is balanced; VERIF_SEED only rotates the order among equals
     jobs = rotate(jobs, seed)
     jobs.sort(key=lambda j: -j[3])
     if not only or "sim-binding" in only or "sim" in only:
         jobs.append(("sim", "sim-binding", (1, 5, 20) if tier == "quick" else (1, 5, 20, 100)))
-    results = pmap(_dispatch, jobs)
+    results = []
+    if len(jobs) > 1 and os.environ.get("VERIF_WORKERS") != "1":
+        it = pool().imap_unordered(_dispatch, jobs)
+    else:
+        it = map(_dispatch, jobs)
+    for res in it:
+        results.append(res)
+        if os.environ.get("C12_PROGRESS"):
+            print(f"  .. {res['name']}: states={res['states']} transitions={res['transitions']} "
+                  f"exhaustive={res['exhaustive']} {res['caps']} viol={[v[0] for v in res['viol']]} "
+                  f"wall={res['wall']:.0f}s", file=sys.stderr, flush=True)
     for res in sorted(results, key=lambda r: r["name"]):
         d = run.driver(res["name"], {"world": res["cls"], **res["kw"]})
         d.states = res["states"]
